@@ -190,11 +190,21 @@ def run_random(spec, acc, api):
     # ISO near-misses parse to null; valid forms parse to the right local instant
     for t in ['2024-02-30', '2024-13-01', '2024-00-10', '2023-02-29', '2024-01-01T25:00:00Z', '2024-01-01T10:61:00Z', '2024-01-01T10:00:61Z', '2024-01-01T10:00:00',
               '2024-01-01T10:00:00.1234567Z', '2024-1-1', '20240101', '2024-01-01T10:00Z', '2024-01-01 10:00:00Z', '2024-01-01T10:00:00+0100', '2024-01-01T10:00:00+25:00',
-              '', 'abc', '2024-01-01T', '2024-01-01Z', '0000-01-01', '2024-01-32T00:00:00Z', '2024-02-30T00:00:00+00:00']:
+              '', 'abc', '2024-01-01T', '2024-01-01Z', '0000-01-01', '2024-01-32T00:00:00Z', '2024-02-30T00:00:00+00:00', '2024-04-31', '2100-02-29', '0000-00-00T00:00:00Z',
+              '9999-12-31T23:59:59-14:00', '0001-01-01T00:00:00+14:00']:
         got = call(api, 'datetimeISOParse', t)
         acc.case((zone, 'near', t), True)
         if got is not None:
             acc.violation('near-miss-parsed', f'{zone}: datetimeISOParse({t!r}) = {got!r}', {'zone': zone, 'text': t})
+        # "parses to null instead of failing": the function itself returns null - it does not raise and rely on the call wrapper
+        try:
+            direct = lib['datetimeISOParse']([t], None)
+        except Exception as exc:  # pylint: disable=broad-except
+            acc.violation('near-miss-raised', f'{zone}: datetimeISOParse({t!r}) raised {type(exc).__name__}: {exc}', {'zone': zone, 'text': t})
+            continue
+        acc.count('near_miss_direct_calls')
+        if direct is not None:
+            acc.violation('near-miss-parsed', f'{zone}: datetimeISOParse({t!r}) = {direct!r} (direct call)', {'zone': zone, 'text': t})
     for t, utc in [('2024-03-10T12:00:00Z', DT(2024, 3, 10, 12)), ('2024-03-10T12:00:00.250+05:30', DT(2024, 3, 10, 6, 30, 0, 250000)), ('1999-12-31T23:59:59.999-11:00', DT(2000, 1, 1, 10, 59, 59, 999000))]:
         want = utc.replace(tzinfo=datetime.timezone.utc).astimezone(zi).replace(tzinfo=None)
         got = call(api, 'datetimeISOParse', t)
